@@ -363,7 +363,8 @@ def st_case(draw):
             "max_iter": _max_iter(draw, n), "tol": draw(st.sampled_from(TOLS)),
             # memory layout of the caller's x (and b): C-contiguous, every other element of a larger buffer, a
             # column of a 2-D array (only for shape [n,1]), a reversed view
-            "xlayout": draw(st.sampled_from(["c", "c", "c", "strided", "column", "reversed"]))}
+            "xlayout": draw(st.sampled_from(["c", "c", "c", "strided", "column", "reversed"])),
+            "positional": draw(st.sampled_from([False, False, True]))}
 
 
 def _in_layout(v, layout):
@@ -434,7 +435,10 @@ def check_case(case):
     if case["P"].get("form"):
         r.label("P-identity:" + case["P"]["form"])
     try:
-        alg = sp.alg.ConjugateGradient(Aop, b_in, x, P=Pop, max_iter=max_iter, tol=tol)
+        if case.get("positional"):
+            alg = sp.alg.ConjugateGradient(Aop, b_in, x, Pop, max_iter, tol)       # documented order (A, b, x, P, max_iter, tol)
+        else:
+            alg = sp.alg.ConjugateGradient(Aop, b_in, x, P=Pop, max_iter=max_iter, tol=tol)
     except Exception as e:
         r.fail("ctor:raises", "%s: %s" % (type(e).__name__, e))
         alg = None
@@ -761,7 +765,65 @@ def check_breakdown(case):
     return r
 
 
+# ------------------------------------------------------------------ part 3: the caller's array is narrower than the system
+
+
+@st.composite
+def st_narrow(draw):
+    return {"n": draw(st.integers(1, 8)), "cplx": draw(st.booleans()), "kappa": draw(st.sampled_from([1.5, 3.0, 10.0])),
+            "seed": draw(A.seeds), "form": draw(st.sampled_from(["linop", "func"])), "x0": draw(st.sampled_from(["zero", "rand"])),
+            "precond": draw(st.booleans()), "positional": draw(st.booleans())}
+
+
+def check_narrow(case):
+    """x given in SINGLE precision for a double-precision system (a valid call: CG updates x in place, numpy rounds the
+    updates into the caller's array). The solution must still be written into that very array."""
+    import sigpy as sp
+    r = R()
+    n, cplx = case["n"], case["cplx"]
+    rng = np.random.default_rng(case["seed"])
+    q = _haar(rng, n, cplx)
+    ev = np.exp(rng.uniform(0.0, math.log(case["kappa"]), n))
+    Am = _herm((q * ev) @ q.conj().T)
+    if not cplx:
+        Am = np.ascontiguousarray(np.real(Am))
+    dt = np.complex128 if cplx else np.float64
+    sdt = np.complex64 if cplx else np.float32
+    b = (rng.standard_normal(n) + (1j * rng.standard_normal(n) if cplx else 0)).astype(dt).reshape(n, 1)
+    x0 = np.zeros((n, 1), sdt) if case["x0"] == "zero" else (rng.standard_normal((n, 1)) + (1j * rng.standard_normal((n, 1)) if cplx else 0)).astype(sdt)
+    x = x0.copy()
+    xs = np.linalg.solve(Am, b)
+    Aop = sp.linop.MatMul([n, 1], Am.astype(dt)) if case["form"] == "linop" else (lambda v: Am @ v)
+    Pop = None
+    if case["precond"]:
+        d = (1.0 / np.real(np.diag(Am))).reshape(n, 1)
+        Pop = (lambda v: d * v)
+    try:
+        if case["positional"]:
+            alg = sp.alg.ConjugateGradient(Aop, b, x, Pop, n + 3, 0)
+        else:
+            alg = sp.alg.ConjugateGradient(Aop, b, x, P=Pop, max_iter=n + 3, tol=0)
+        k = 0
+        while not alg.done() and k < n + 5:
+            alg.update()
+            k += 1
+    except Exception as e:
+        r.fail("narrow:raises", "%s: %s" % (type(e).__name__, e))
+        return r
+    r.check(alg.x is x, "identity:x-rebound", "alg.x is not the caller's (single-precision) array")
+    e0 = _anorm(Am, x0.astype(dt).ravel() - xs.ravel())
+    e = _anorm(Am, x.astype(dt).ravel() - xs.ravel())
+    tolr = 1e-4 * (e0 + _anorm(Am, xs.ravel()) + 1e-30)
+    r.check(np.all(np.isfinite(x)) and e <= tolr, "narrow:solution-not-in-callers-array",
+            "after %d updates the caller's %s array is %.3e (A-norm) from the solution, initial error %.3e" % (k, x.dtype, e, e0))
+    r.label("cplx" if cplx else "real", "x0:" + case["x0"], "P" if Pop is not None else "no-P")
+    r.nontrivial = n >= 2
+    r.sig = "narrow|%d|%s|%s|%s|%s|%s" % (n, cplx, case["kappa"], case["form"], case["x0"], case["precond"])
+    return r
+
+
 PARTS = [
     Part("krylov", check_case, {"quick": 20000, "thorough": 40000}, strategy=st_case),
     Part("breakdown", check_breakdown, {"quick": 4000, "thorough": 6000}, strategy=st_breakdown),
+    Part("narrow", check_narrow, {"quick": 3000, "thorough": 20000}, strategy=st_narrow),
 ]
